@@ -73,6 +73,14 @@ ModelStep(e, op) ==
       [] op.op = "rot" -> LET r == StepRot(e, op.export) IN [s |-> r.s, nz |-> r.wrote, exact |-> -1]
       [] op.op = "addbp" -> LET r == StepAddBP(e, op.bp) IN [s |-> r.s, nz |-> r.idx > 0, exact |-> r.idx]
       [] op.op = "setbp" -> LET r == StepSetBP(e, op.i) IN [s |-> r.s, nz |-> r.ok, exact |-> IF r.ok THEN 1 ELSE 0]
+      [] op.op = "xnew" -> [s |-> XNew(e, op.i), nz |-> FALSE, exact |-> 0]
+      [] op.op = "xset" -> LET r == XSet(e, op.i) IN [s |-> r.s, nz |-> r.ok, exact |-> IF r.ok THEN 1 ELSE 0]
+      [] op.op = "xclear" -> [s |-> XClear(e), nz |-> FALSE, exact |-> 0]
+      [] op.op \in {"xqr", "xaec", "xmm"} ->
+            LET r == XAdd(e, IF op.op = "xqr" THEN "qr" ELSE IF op.op = "xaec" THEN "aec" ELSE "mm", op.r,
+                          IF "stats" \in DOMAIN op THEN <<op.stats>> ELSE NoStats)
+            IN [s |-> r.s, nz |-> r.full, exact |-> IF r.full THEN 1 ELSE 0]
+      [] op.op = "xwb" -> LET r == XWrite(e) IN [s |-> r.s, nz |-> r.wrote, exact |-> -1]
       [] op.op = "editbp" -> [s |-> StepEditBP(e, op.bp), nz |-> FALSE, exact |-> 0]
       [] op.op = "wbx" -> \* write_block(block) with a block built through the raw add_* API; the buffered block is untouched
             LET b == RawModelBlock(op, e.bps) IN
@@ -82,7 +90,8 @@ ModelStep(e, op) ==
                   nz |-> TRUE, exact |-> -1]
       [] OTHER -> [s |-> e, nz |-> FALSE, exact |-> 0]
 
-ByteCounted(op) == op.op \in {"qr", "aec", "mm", "wb", "rot", "wbx"}
+ByteCounted(op) == op.op \in {"qr", "aec", "mm", "wb", "rot", "wbx", "xwb"}
+XCnt(e) == [items |-> ItemCount(e.xb), qr |-> Len(e.xb.qrs), aec |-> Len(e.xb.aecs), mm |-> Len(e.xb.mms), bpi |-> e.xb.bpi]
 
 TCall ==
     /\ l <= N /\ Tr[l].e = "C"
@@ -95,7 +104,7 @@ TCall ==
                 retOK == /\ "exc" \notin DOMAIN ev
                          /\ (ev.ret # 0) = m.nz
                          /\ (m.exact >= 0 => ev.ret = m.exact)
-                cntOK == ev.cnt = Cnt(m.s)
+                cntOK == ev.cnt = Cnt(m.s) /\ ("xcnt" \in DOMAIN ev => ev.xcnt = XCnt(m.s))
             IN IF retOK /\ cntOK
                THEN ex' = m.s /\ UNCHANGED <<lost, viol>>
                ELSE /\ viol' = Note([l |-> l, prop |-> "C12,C13",
